@@ -48,8 +48,19 @@ def run_mutant(patch, tier="quick", prop=None, keep=False):
         lines = [l for l in r.stdout.splitlines() if l.startswith(("VIOLATION", "  signature", "HARNESS-ERROR", "OK "))]
         outcome = {0: "SURVIVED", 1: "killed", 2: "harness-error"}.get(r.returncode, f"exit-{r.returncode}")
         sigs = [l.strip() for l in lines if l.startswith("  signature")][:4]
-        return {"mutant": name, "property": prop, "outcome": outcome, "wall_s": round(time.time() - t0, 1),
-                "signatures": sigs, "tail": lines[-3:] if outcome != "killed" else []}
+        res = {"mutant": name, "property": prop, "outcome": outcome, "wall_s": round(time.time() - t0, 1),
+               "signatures": sigs, "tail": lines[-3:] if outcome != "killed" else []}
+        if outcome == "killed":
+            # the minimised replay file must reproduce the violation in a fresh process
+            rp = next((l.split("replay=")[1].strip() for l in r.stdout.splitlines() if l.startswith("VIOLATION")), None)
+            if rp:
+                r2 = subprocess.run([os.path.join(VERIF, "check"), prop, "--replay", rp], env=env, capture_output=True,
+                                    text=True, timeout=1800)
+                res["replay_reproduced"] = (r2.returncode == 1 and "VIOLATION" in r2.stdout
+                                            and "different signature" not in r2.stdout)
+                if not res["replay_reproduced"]:
+                    res["replay_tail"] = (r2.stdout + r2.stderr)[-400:]
+        return res
     finally:
         if not keep:
             subprocess.run(["git", "-C", "/repo", "worktree", "remove", "--force", wt], capture_output=True)
@@ -79,7 +90,7 @@ def mutants(argv):
             prop = json.load(open(meta)).get("property")
         r = run_mutant(p, tier, prop)
         res.append(r)
-        print(f"{r['outcome']:>20}  {r['property']}  {r['mutant']}  {r.get('wall_s', '')}s  {r.get('signatures', r.get('detail', ''))}", flush=True)
+        print(f"{r['outcome']:>20}  {r['property']}  {r['mutant']}  {r.get('wall_s', '')}s  replay={r.get('replay_reproduced')}  {r.get('signatures', r.get('detail', ''))}", flush=True)
     path = os.path.join(VERIF, "evidence", "selftest_mutants.json" if "seeded" not in d else "selftest_seeded.json")
     prev = []
     if only and os.path.exists(path):
